@@ -173,4 +173,6 @@ func TestVerifC13(t *testing.T) {
 		}
 		checkU128(c, u)
 	})
+	// Compare vs big.Int Cmp, oversize constructor inputs counted (c13_compare_test.go)
+	c13Compare(r)
 }
